@@ -188,6 +188,8 @@ def eval_telegram(case, out):
             out.append(("C19/telegram/type", "parse_telegram_url(%r) returned %r" % (url, rec)))
         elif isinstance(rec, T.TelegramMessage) and not T.is_telegram_message_id(rec.id):
             out.append(("C19/telegram/validator", "parse_telegram_url(%r)=%r: id fails is_telegram_message_id" % (url, rec)))
+        elif any(v == "" for v in rec):
+            out.append(("C19/telegram/malformed/%s" % type(rec).__name__, "parse_telegram_url(%r) returned %r: an empty field is not a well-formed record" % (url, rec)))
     return ok and rec is not None
 
 
